@@ -40,6 +40,12 @@ enum Node {
     Call { func: usize, arg: i64 },
     Import { file: usize },
     Decl,
+    /// multi-line material that produces no delivery (comment, map, interpolated rule)
+    Filler { kind: u8 },
+    /// `@debug fN(arg)`: the function's own deliveries come first, then the inspected result
+    DebugOfCall { tag: u32, func: usize, arg: i64 },
+    /// include of a mixin that is defined in an imported file (entry only, after the import)
+    IncludeForeign { file: usize, mixin: usize, arg: i64 },
 }
 
 #[derive(Clone, Debug)]
@@ -162,8 +168,14 @@ impl<'a> Gen<'a> {
                 Node::Import { file: *self.rng.pick(nimp) }
             } else if in_rule {
                 Node::Decl
+            } else if self.rng.chance(0.5) && wh != Where::Function && wh != Where::Mixin && wh != Where::Content {
+                Node::Filler { kind: self.rng.below(3) as u8 }
             } else {
                 Node::Debug { tag: self.tag(), vars: vars.to_vec() }
+            };
+            let node = match node {
+                Node::Call { func, arg } if self.rng.chance(0.4) => Node::DebugOfCall { tag: self.tag(), func, arg },
+                n => n,
             };
             out.push(node);
         }
@@ -223,7 +235,22 @@ impl Printer {
             // an empty indented block is not expressible; emit a harmless comment
             self.ln(indent, "// empty");
         }
-        for n in nodes {
+        let mut skip_next = false;
+        for (ni, n) in nodes.iter().enumerate() {
+            if skip_next {
+                skip_next = false;
+                continue;
+            }
+            // two @warn directives on one line (SCSS): their spans share a line, nothing else
+            if let (Node::Warn { tag: t1, vars: v1 }, Some(Node::Warn { tag: t2, vars: v2 })) = (n, nodes.get(ni + 1)) {
+                if !self.sass && t1 % 4 == 0 {
+                    self.lines.insert(*t1, self.line + 1);
+                    self.lines.insert(*t2, self.line + 1);
+                    self.ln(indent, &format!("@warn {}; @warn {};", Self::msg("w", *t1, v1), Self::msg("w", *t2, v2)));
+                    skip_next = true;
+                    continue;
+                }
+            }
             match n {
                 Node::Debug { tag, vars } => {
                     self.lines.insert(*tag, self.line + 1);
@@ -239,10 +266,12 @@ impl Printer {
                     let pre = if self.cjk && !self.sass { "$_cjk: \"日本語テキストの説明です、とても長い\"; " } else { "" };
                     let m = Self::msg("e", *tag, vars);
                     // the value of @error is reported *inspected*: strings keep their quotes, also inside lists and maps
-                    let value = match tag % 3 {
+                    let value = match tag % 5 {
                         0 => format!("\"{}\"", m),
                         1 => format!("\"{}\", \"b c\"", m),
-                        _ => format!("(k: \"{}\")", m),
+                        2 => format!("(k: \"{}\")", m),
+                        3 => format!("(\"{}\", 12px, null, [a, b])", m),
+                        _ => format!("\"{} {{}} {{0}} %s\"", m),
                     };
                     self.stmt(indent, &format!("{}@error {}", pre, value));
                 }
@@ -301,6 +330,36 @@ impl Printer {
                     self.stmt(indent, &format!("@import \"{}\"", url));
                 }
                 Node::Decl => self.stmt(indent, "x: y"),
+                Node::Filler { kind } => {
+                    if self.sass {
+                        self.ln(indent, "// filler");
+                    } else {
+                        match kind {
+                            0 => {
+                                self.ln(indent, "/* a comment that");
+                                self.ln(indent, "   spans three");
+                                self.ln(indent, "   lines */");
+                            }
+                            1 => {
+                                self.ln(indent, "$_map: (");
+                                self.ln(indent, "  a: 1,");
+                                self.ln(indent, "  b: (c, d),");
+                                self.ln(indent, ");");
+                            }
+                            _ => {
+                                self.ln(indent, ".f-#{1 + 1},");
+                                self.ln(indent, ".g-#{2 + 2} {");
+                                self.ln(indent, "  x: y;");
+                                self.ln(indent, "}");
+                            }
+                        }
+                    }
+                }
+                Node::DebugOfCall { tag, func, arg } => {
+                    self.lines.insert(*tag, self.line + 1);
+                    self.stmt(indent, &format!("@debug {}({})", f.funcs[*func].name, arg));
+                }
+                Node::IncludeForeign { file, mixin, arg } => self.stmt(indent, &format!("@include {}({})", all[*file].mixins[*mixin].name, arg)),
             }
         }
     }
@@ -358,10 +417,12 @@ impl<'a> Exec<'a> {
                 Node::Warn { tag, vars } => self.out.push(Expected { kind: "warn".into(), file: self.files[fi].path.clone(), line: self.lines[fi][tag], msg: Self::msg("w", *tag, vars, env) }),
                 Node::Error { tag, vars } => {
                     let m = Self::msg("e", *tag, vars, env);
-                    let inspected = match tag % 3 {
+                    let inspected = match tag % 5 {
                         0 => format!("\"{}\"", m),
                         1 => format!("\"{}\", \"b c\"", m),
-                        _ => format!("(k: \"{}\")", m),
+                        2 => format!("(k: \"{}\")", m),
+                        3 => format!("\"{}\", 12px, null, [a, b]", m),
+                        _ => format!("\"{} {{}} {{0}} %s\"", m),
                     };
                     self.error = Some(Expected { kind: "error".into(), file: self.files[fi].path.clone(), line: self.lines[fi][tag], msg: inspected });
                     return false;
@@ -452,7 +513,25 @@ impl<'a> Exec<'a> {
                         return false;
                     }
                 }
-                Node::Decl => {}
+                Node::Decl | Node::Filler { .. } => {}
+                Node::DebugOfCall { tag, func, arg } => {
+                    let f = &self.files[fi].funcs[*func];
+                    let mut fenv = BTreeMap::new();
+                    fenv.insert("a".to_string(), *arg);
+                    if !self.run(fi, &f.body, &mut fenv, None) {
+                        return false;
+                    }
+                    self.out.push(Expected { kind: "debug".into(), file: self.files[fi].path.clone(), line: self.lines[fi][tag], msg: arg.to_string() });
+                }
+                Node::IncludeForeign { file, mixin, arg } => {
+                    // the mixin's directives live in the file that defines it
+                    let m = &self.files[*file].mixins[*mixin];
+                    let mut menv = BTreeMap::new();
+                    menv.insert("a".to_string(), *arg);
+                    if !self.run(*file, &m.body, &mut menv, None) {
+                        return false;
+                    }
+                }
             }
         }
         true
@@ -549,6 +628,24 @@ pub fn gen_script(rng: &mut Rng, root: &str) -> Script {
         }
         files.push(FileAst { path, sass, uses: if i == 0 { usable.clone() } else { vec![] }, mixins, funcs, body });
     }
+    // the entry includes mixins that an imported file defines (after the first import of that file):
+    // their directives, and any error in them, are located in the imported file
+    {
+        let mut body = std::mem::take(&mut files[0].body);
+        let mut extra: Vec<(usize, Node)> = vec![];
+        for (pos, n) in body.iter().enumerate() {
+            if let Node::Import { file } = n {
+                let nm = files[*file].mixins.len();
+                if nm > 0 && g.rng.chance(0.5) && !extra.iter().any(|(_, e)| matches!(e, Node::IncludeForeign { file: f2, .. } if f2 == file)) {
+                    extra.push((pos + 1, Node::IncludeForeign { file: *file, mixin: g.rng.usize_below(nm), arg: g.rng.range(1, 9) as i64 }));
+                }
+            }
+        }
+        for (k, (pos, node)) in extra.into_iter().enumerate() {
+            body.insert(pos + k, node);
+        }
+        files[0].body = body;
+    }
     // give content blocks to includes of mixins that use @content
     for fi in 0..files.len() {
         let mixins = files[fi].mixins.clone();
@@ -594,13 +691,20 @@ pub fn gen_script(rng: &mut Rng, root: &str) -> Script {
     // print
     let cjk = g.rng.chance(0.3);
     let crlf = g.rng.chance(0.2);
+    let no_final_newline = g.rng.chance(0.2);
     let mut texts = vec![];
     let mut lines = vec![];
     for f in &files {
         let mut p = Printer { out: String::new(), line: 0, sass: f.sass, cjk, lines: BTreeMap::new() };
         p.file(f, &files);
         // CRLF line ends: line numbers stay the same, byte offsets and line terminators do not
-        texts.push(if crlf { p.out.replace('\n', "\r\n") } else { p.out });
+        let mut t = if crlf { p.out.replace('\n', "\r\n") } else { p.out };
+        if no_final_newline && !f.sass {
+            while t.ends_with('\n') || t.ends_with('\r') {
+                t.pop();
+            }
+        }
+        texts.push(t);
         lines.push(p.lines);
     }
     // execute the tree
